@@ -335,7 +335,7 @@ func checkC08(r *vlib.Run) int {
 				for _, c := range c08Causes {
 					scs = append(scs, c08Scenario{Cause: c, Race: race})
 					scs = append(scs, c08Scenario{Cause: c, Race: race, NoWriter: true})
-					if !strings.HasPrefix(c, "audit-path") && c != "audit-pipe-eof" {
+					if !strings.Contains(c, "-path-") && c != "audit-pipe-eof" {
 						scs = append(scs, c08Scenario{Cause: c, Saturated: true, Race: race})
 					}
 				}
